@@ -129,6 +129,7 @@ FUNCS = [
     ("Attribute._expand", "sparseExpand", "sparse", ["Nat"], "Unit", False),
     ("Attribute.__len__", "sparseLen", "sparse", [], "Nat", True),
     ("Attribute.clear", "sparseClear", "sparse", [], "Unit", False),
+    ("Attribute.as_array", "sparseAsArray", "sparse", ["Nat"], "Mat", False),
     ("ArrayAttribute.__init__", "denseInit", "dense", ["Ty", "Nat", "Nat", "OptScalar"], "Unit", False),
     ("ArrayAttribute._check_out_of_bounds", "checkOutOfBounds", "dense", ["Int"], "Unit", False),
     ("ArrayAttribute.__getitem__", "denseGetitem", "dense", ["Int"], "Res", False),
@@ -578,6 +579,25 @@ class Fn:
             body = (f"match forAttrs h self.attr (dispatch{c.func.attr.strip('_').capitalize()} {' '.join(args)}) with\n| .error e => .error e\n"
                     f"| .ok {v} =>\nlet h := {v}.1\nlet self := {{ self with attr := {v}.2 }}\n")
             return self.emit_pre(pre, body + self.S(rest))
+        if self.cls == "sparse" and isinstance(it, ast.Call) and ast.unparse(it.func) == "self._data.items" and not it.args \
+                and isinstance(s.target, ast.Tuple) and len(s.target.elts) == 2 and all(isinstance(e, ast.Name) for e in s.target.elts):
+            # for i, x in self._data.items(): out[i,:] = x      (row writes into a LOCAL array, in dict order)
+            ki, xi = s.target.elts[0].id, s.target.elts[1].id
+            if not (len(s.body) == 1 and isinstance(s.body[0], ast.Assign) and len(s.body[0].targets) == 1):
+                self.err("items loop body is not one row assignment", s)
+            tg, val = s.body[0].targets[0], s.body[0].value
+            ok = (isinstance(tg, ast.Subscript) and isinstance(tg.value, ast.Name) and tg.value.id in self.env and self.env[tg.value.id][1] == "Mat"
+                  and isinstance(tg.slice, ast.Tuple) and len(tg.slice.elts) == 2 and isinstance(tg.slice.elts[0], ast.Name) and tg.slice.elts[0].id == ki
+                  and isinstance(tg.slice.elts[1], ast.Slice) and tg.slice.elts[1].lower is None and tg.slice.elts[1].upper is None
+                  and isinstance(val, ast.Name) and val.id == xi)
+            if not ok: self.err("items loop body is not `out[i,:] = x`", s.body[0])
+            arr = tg.value.id
+            old_v = self.env[arr][0]
+            self.nloc += 1
+            nv = f"v{self.nloc}"
+            self.env[arr] = (nv, "Mat")
+            return (f"match forItems self.data.asDict {old_v} (fun acc k r => npRowAssign acc k (cellVec h r)) with\n| .error e => .error e\n"
+                    f"| .ok {nv} =>\n" + self.S(rest))
         if isinstance(it, ast.Name) and it.id in self.env and self.env[it.id][1] == "Scalars" and isinstance(s.target, ast.Name):
             self.nloc += 1
             v = f"v{self.nloc}"
